@@ -200,6 +200,19 @@ def _setops(*a):
         return rt.SKIP
     m = rt.pick(m, 0, 3)
     perm = rt.pick(perm, 0, 23)
+    if what == "order":
+        # two sets with the SAME members that hold two marks of one (non-self-excluding) type in different order: both are
+        # reachable ([c1, c2] by adding c1 then c2; [c2, c1] by removing c1 from it and adding it again)
+        if m != 0 or perm != 0 or not (bits[1] and bits[2]) or id1 == id2 or any(bits[i] != cbits[i] for i in range(4)):
+            return rt.SKIP
+        A = pick_set(univ[:4], bits)
+        k1 = [i for i, o in enumerate(A) if o[0] == 1]
+        B = list(A)
+        B[k1[0]], B[k1[1]] = A[k1[1]], A[k1[0]]
+        ok = Mark.same_set(marks_of(A), marks_of(B))
+        if not ok and rt.known_mode("C14-same-set-is-order-sensitive-within-a-type"):
+            return rt.fin(Mark.same_set(marks_of(B), marks_of(B)) and all(o[1].is_in_set(marks_of(B)) for o in A))
+        return rt.fin(ok, "same_set is False for two sets with the same members")
 
     def same(a, b):
         return a[0] == b[0] and (a[0] != 1 or a[1].attrs["id"] == b[1].attrs["id"])
@@ -365,6 +378,7 @@ def obligations(tier, seed):
                                 "P": {"n": 3, "a0": a0, "a1": a1, "a2": a2}, "timeout": T})
     obs.append({"name": "setops/ops", "fn": "ob_setops", "P": {"n": 3, "what": "ops"}, "timeout": T})
     obs.append({"name": "setops/set_from", "fn": "ob_setops", "P": {"n": 3, "what": "set_from"}, "timeout": T})
+    obs.append({"name": "setops/order", "fn": "ob_setops", "P": {"n": 3, "what": "order"}, "timeout": T})
     obs.append({"name": "allowed", "fn": "ob_allowed", "P": {"n": 3}, "timeout": T})
     for v in (0, 1, 2):
         for vary in ("excludes", "marks"):
